@@ -53,11 +53,13 @@ def families(quick):
         'arglen': dict(Ops='{"MacroArgLoop","LoopSumN","IntToFloat","Take","Multiply"}' if quick else '{"MacroArgLoop","LoopSumN","IntToFloat","Multiply","Take","Inflate"}',
                        LeafSet='{7, 15}' if quick else '{1, 7, 15, 39}', MaxOps=5, MaxNodes=8, MaxLeaves=3),
         'monomial': dict(Ops='{"Monomial","Take","Multiply"}' if quick else '{"Monomial","Take","Multiply","Inflate","Sum"}', LeafSet='{1, 3, 13, 30}' if quick else '{1, 3, 4, 13, 15, 30, 39}', MaxOps=dx, MaxNodes=dx + 3, MaxLeaves=3),
+        'inflate3': dict(Ops='{"Inflate","Transpose","Multiply","Negative"}', LeafSet='{59, 60}', MaxOps=2 if quick else 3, MaxNodes=5 if quick else 6, MaxLeaves=3),
+        'uvc': dict(Ops='{"MacroUVC","Multiply","Negative"}' if quick else '{"MacroUVC","Multiply","Negative","Add","Transpose"}', LeafSet='{8}', MaxOps=7 if quick else 8, MaxNodes=13, MaxLeaves=6),
     }
 
 
 # families over the extended vocabulary: generated exhaustively like the others, replayed on a sample (110 quick / 1500 thorough per family)
-EXTENDED = ('cxparts', 'cxpow', 'cxstruct', 'cxlin', 'einsum', 'poly', 'polycount', 'search', 'dyn', 'arglen', 'monomial')
+EXTENDED = ('cxparts', 'cxpow', 'cxstruct', 'cxlin', 'einsum', 'poly', 'polycount', 'search', 'dyn', 'arglen', 'monomial', 'inflate3', 'uvc')
 
 
 def _steps_hook():
